@@ -93,6 +93,19 @@ def cmd_check(args):
                 slots.append(s2)
     # syntactic scans that back an assumption of the property (e.g. A-no-interior-mut for C15)
     scan_hits = []
+    # A-derive: the derive lists and manual trait impls of the extracted types are the pinned ones
+    try:
+        from . import derives as _derives
+        used = set()
+        for u in units:
+            ej = os.path.join(ROOT, 'work', '%s.extract.json' % u)
+            if os.path.exists(ej):
+                for t in json.load(open(ej)).get('types', []):
+                    used.add('%s in %s' % (t.get('name'), t.get('file')))
+        for dline in _derives.diff(used):
+            scan_hits.append('A-derive: ' + dline)
+    except Exception as e:
+        undecided.append('A-derive scan crashed: %r' % e)
     for sc in pcfg.get('scans', []):
         rx = re.compile(sc['pattern'])
         for root in sc['paths']:
@@ -331,5 +344,9 @@ def main(argv):
         return cmd_replay(args)
     if cmd == 'list':
         return cmd_list(args)
+    if cmd == 'pin-derives':
+        from . import derives as _derives
+        print('pinned', _derives.pin())
+        return 0
     print('unknown command', cmd)
     return 64
